@@ -64,6 +64,8 @@ def handleCompile (args : List String) : String :=
     | some file =>
       -- the shape hypothesis of theorem compile_no_panic, checked on every AST the parser ships
       if !okSs file then "bad-shape: assignment with an empty left-hand side" else
+      -- the hypothesis `BuiltinsOK` of the C05 theorems, checked on the table the driver passes
+      if !(builtinsMap.all fun p => p.2 < Gen.numBuiltins) then "bad-builtins: index out of range" else
       match compileFile builtinsMap [] file with
       | .ok bc => "ok " ++ showFn bc.main ++ " ; " ++ " ".intercalate (bc.constants.toList.map showConst)
       | .error (.err pos msg) => s!"err {pos} {msg}"
